@@ -129,6 +129,12 @@ class Prop:
             if x < 0.08:
                 ops.append({"k": "drop", "o": r.randrange(8)})
                 continue
+            if x < 0.12:
+                # 'del node.trait': the link falls back to its default
+                ops.append({"k": "del_attr", "o": 0 if r.random() < 0.35 else r.randrange(12),
+                            "name": r.choice(["child", "children", "table"]
+                                             + ([] if eq_nodes else ["group"]))})
+                continue
             op = G.gen_graph_op(r, 4)
             if op["k"] not in ALLOWED:
                 continue
@@ -155,6 +161,7 @@ class Prop:
         # a distinct object that compares equal to the one it replaces
         world = G.World(env, 1, classes="EqNode" if cfg.get("eq_nodes") else "Node")
         world.lazy_enabled = False
+        world.del_enabled = True
         self._world = world
         routed = []
         oapi.push_exception_handler(lambda ev: routed.append("observe"), reraise_exceptions=False)
